@@ -234,9 +234,12 @@ def one_iteration(R, content):
     def dec_usb(packet):
         # the window check itself is obligation (3); here decode_usb is an oracle that either yields a message or not
         seen.append(packet)
-        if EX().choose(2):
+        ch = EX().choose(3)
+        if ch == 1:
             results.append(packet)
             return ("MSG", len(results))
+        if ch == 2:
+            raise ValueError("decoder rejects this window")       # a window whose content the PGN decoder raises on
         return None
     results = []
 
